@@ -1,6 +1,6 @@
 """Runs inside a fresh interpreter with the freshly built kenlm extension first on sys.path.
-   argv: <model path> [--load-methods]
-   stdin: one sentence per line as hex ("-" = empty); stdout: one JSON object per sentence with the raw observations."""
+   argv: <model path>[+lm] ...   (every model is loaded into this one process; +lm = also through every Config.load_method)
+   stdin: `<model index> <sentence hex or ->` per line; stdout: one JSON object per line with the raw observations."""
 import json
 import struct
 import sys
@@ -32,11 +32,12 @@ def ref_split(s):
     return out
 
 
-def main():
-    path = sys.argv[1]
+def load(spec):
+    """spec = <path> or <path>+lm (also load it through every Config.load_method)"""
+    path, _, opt = spec.partition("+")
     m = kenlm.Model(path)
     others = []
-    if "--load-methods" in sys.argv:
+    if opt == "lm":
         # PARALLEL_READ is refused by util::MapRead by design ("Parallel read was removed from this repo"): it must raise
         try:
             cfg = kenlm.Config()
@@ -50,58 +51,70 @@ def main():
             cfg.load_method = getattr(kenlm.LoadMethod, name)
             cfg.show_progress = False
             others.append((name, kenlm.Model(path, cfg)))
-    print(json.dumps({"ready": True, "order": m.order}))
+    return m, others
+
+
+def observe(m, others, s):
+    obs = {"combos": []}
+    try:
+        words = [w.decode("utf-8") for w in ref_split(s)]
+        if any(w.encode("utf-8") != b for w, b in zip(words, ref_split(s))):
+            words = None
+    except UnicodeDecodeError:
+        words = None
+    for bos, eos in ((True, True), (True, False), (False, True), (False, False)):
+        c = {"score": bits(m.score(s, bos=bos, eos=eos))}
+        c["fs"] = [[bits(p), n, 1 if oov else 0] for p, n, oov in m.full_scores(s, bos=bos, eos=eos)]
+        if words is not None:
+            st, out = kenlm.State(), kenlm.State()
+            (m.BeginSentenceWrite if bos else m.NullContextWrite)(st)
+            total = 0.0
+            bfs = []
+            for w in words:
+                r = m.BaseFullScore(st, w, out)
+                x = m.BaseScore(st, w, out)
+                bfs.append([bits(r.log_prob), r.ngram_length, 1 if r.oov else 0, bits(x)])
+                total = f32(total + x)
+                st, out = out, st
+            if eos:
+                x = m.BaseScore(st, "</s>", out)
+                total = f32(total + x)
+            c["st"] = bits(total)
+            c["bfs"] = bfs
+        if others:
+            c["lm"] = {name: bits(o.score(s, bos=bos, eos=eos)) for name, o in others}
+        obs["combos"].append(c)
+    obs["ppl"] = m.perplexity(s).hex()
+    obs["contains"] = [1 if (w in m) else 0 for w in ref_split(s)]
+    # the same sentence handed over as str (the module encodes it as UTF-8): every entry point again
+    try:
+        text = s.decode("utf-8")
+        if text.encode("utf-8") != s:
+            text = None
+    except UnicodeDecodeError:
+        text = None
+    if text is not None:
+        st = {"combos": []}
+        for bos, eos in ((True, True), (True, False), (False, True), (False, False)):
+            st["combos"].append({"score": bits(m.score(text, bos=bos, eos=eos)),
+                                 "fs": [[bits(p), n, 1 if oov else 0] for p, n, oov in m.full_scores(text, bos=bos, eos=eos)]})
+        st["ppl"] = m.perplexity(text).hex()
+        st["contains"] = [1 if (w.decode("utf-8") in m) else 0 for w in ref_split(s)]
+        obs["str"] = st
+    return obs
+
+
+def main():
+    """argv: model specs, all loaded into THIS interpreter in the given order; stdin: `<model index> <sentence hex|->` per line,
+    in whatever order the harness interleaves the models; stdout: one JSON object per line"""
+    models = [load(spec) for spec in sys.argv[1:]]
+    print(json.dumps({"ready": True, "orders": [m.order for m, _ in models]}))
     sys.stdout.flush()
     for line in sys.stdin:
-        h = line.strip()
+        k, h = line.split()
         s = b"" if h == "-" else bytes.fromhex(h)
-        obs = {"combos": []}
-        try:
-            words = [w.decode("utf-8") for w in ref_split(s)]
-            if any(w.encode("utf-8") != b for w, b in zip(words, ref_split(s))):
-                words = None
-        except UnicodeDecodeError:
-            words = None
-        for bos, eos in ((True, True), (True, False), (False, True), (False, False)):
-            c = {"score": bits(m.score(s, bos=bos, eos=eos))}
-            c["fs"] = [[bits(p), n, 1 if oov else 0] for p, n, oov in m.full_scores(s, bos=bos, eos=eos)]
-            if words is not None:
-                st, out = kenlm.State(), kenlm.State()
-                (m.BeginSentenceWrite if bos else m.NullContextWrite)(st)
-                total = 0.0
-                bfs = []
-                for w in words:
-                    r = m.BaseFullScore(st, w, out)
-                    x = m.BaseScore(st, w, out)
-                    bfs.append([bits(r.log_prob), r.ngram_length, 1 if r.oov else 0, bits(x)])
-                    total = f32(total + x)
-                    st, out = out, st
-                if eos:
-                    x = m.BaseScore(st, "</s>", out)
-                    total = f32(total + x)
-                c["st"] = bits(total)
-                c["bfs"] = bfs
-            if others:
-                c["lm"] = {name: bits(o.score(s, bos=bos, eos=eos)) for name, o in others}
-            obs["combos"].append(c)
-        obs["ppl"] = m.perplexity(s).hex()
-        obs["contains"] = [1 if (w in m) else 0 for w in ref_split(s)]
-        # the same sentence handed over as str (the module encodes it as UTF-8): every entry point again
-        try:
-            text = s.decode("utf-8")
-            if text.encode("utf-8") != s:
-                text = None
-        except UnicodeDecodeError:
-            text = None
-        if text is not None:
-            st = {"combos": []}
-            for bos, eos in ((True, True), (True, False), (False, True), (False, False)):
-                st["combos"].append({"score": bits(m.score(text, bos=bos, eos=eos)),
-                                     "fs": [[bits(p), n, 1 if oov else 0] for p, n, oov in m.full_scores(text, bos=bos, eos=eos)]})
-            st["ppl"] = m.perplexity(text).hex()
-            st["contains"] = [1 if (w.decode("utf-8") in m) else 0 for w in ref_split(s)]
-            obs["str"] = st
-        print(json.dumps(obs))
+        m, others = models[int(k)]
+        print(json.dumps(observe(m, others, s)))
         sys.stdout.flush()
 
 
